@@ -290,6 +290,46 @@ def h_menu(i: int, what: int) -> bool:
     return run(body_menu, i, what)
 
 
+# ------------------------------------------------------------------ the REAL aiohttp front end over loopback
+REAL_NAMES = MENU + ["plain.ics"]
+
+
+def body_real_aiohttp(chunk):
+    """The obligations of `listing` / `collection` against the REAL aiohttp server (aiohttp.test_utils over
+    loopback, wired like xandikos.web.main, real on-disk repositories, real URL parsing by aiohttp / yarl; see
+    xv/real_aio.py): every menu name is PUT under its percent-encoded URL, listed, and every emitted href -
+    dereferenced as sent - serves its member; sync-collection lists the same hrefs; the POST Location resolves, as a
+    client resolves it, to the created member."""
+    from xv.core import pick, untraced
+    chunk = pick(chunk, 2)
+    with untraced():
+        import json
+        import os
+        import subprocess
+        import xv
+        prefix = ctx.PART
+        names = REAL_NAMES[chunk::2]
+        p = subprocess.run(["/venv/bin/python", os.path.join(os.path.dirname(__file__), "..", "real_aio.py"),
+                            json.dumps({"prefix": prefix, "names": names})], capture_output=True, text=True, cwd=xv.REPO,
+                           env={"PATH": os.environ.get("PATH", ""), "PYTHONPATH": xv.REPO}, timeout=300)
+        if p.returncode != 0:
+            raise RuntimeError("real aiohttp driver failed: " + p.stderr[-600:])
+        res = json.loads(p.stdout)
+        bad = [x for x in res if not x[1]]
+        if bad:
+            ctx.LAST_EXC = repr(bad[:3])
+            return (False, "real-front-end")
+        return (True, "served:%d" % chunk)
+
+
+def h_real_aiohttp(chunk: int) -> bool:
+    """
+    pre: 0 <= chunk < 2
+    post: _
+    """
+    return run(body_real_aiohttp, chunk)
+
+
 _B = {"quick": {"nlen": 2}, "thorough": {"nlen": 4}}
 _PARTS_Q = [("/", False), ("/dav/", False), ("/a/b/", True), ("/", True)]
 _PARTS_T = [(p, w) for p in PREFIXES for w in (False, True)]
@@ -301,6 +341,14 @@ _ENC = ["xandikos.webdav.PropfindMethod.handle", "xandikos.webdav.traverse_resou
         "xandikos.web.StoreBasedCollection.get_member", "xandikos.web.CollectionSetResource.members"]
 
 HARNESSES = [
+    Harness("real_aiohttp", h_real_aiohttp, body_real_aiohttp, classes=[("served:0", "/"), ("served:1", "/dav/")],
+            parts={"quick": ["/", "/dav/", "/a/b/"]}, budget={"quick": 120, "thorough": 240},
+            per_path_timeout={"quick": 120, "thorough": 120}, twin_budget={"quick": 90, "thorough": 120},
+            describe="the listing / POST-Location obligations against the REAL aiohttp server over loopback (real URL "
+                     "parsing, real route-prefix wiring, real on-disk repositories) for the %d menu names; part = prefix" % (len(MENU) + 1),
+            encodes=["xandikos.webdav.WebDAVApp.aiohttp_handler", "xandikos.webdav.PutMethod.handle", "xandikos.webdav.PostMethod.handle",
+                     "xandikos.webdav.PropfindMethod.handle", "xandikos.sync.SyncCollectionReporter.report",
+                     "xandikos.webdav.create_href", "xandikos.webdav.Status.aselement"]),
     Harness("listing", h_listing, body_listing, classes=[("depth0", ("/", False)), ("depth1", ("/dav/", False))],
             parts={"quick": _PARTS_Q, "thorough": _PARTS_T}, bounds=_B, budget={"quick": 90, "thorough": 600},
             describe="PROPFIND Depth 0/1 on a calendar with a symbolic member name; every href dereferences to its "
